@@ -334,6 +334,40 @@ func c08XMLCheck(cs c08Case) (sig, detail string) {
 	var b strings.Builder
 	xmlTreeStr(n, &b)
 	got := b.String()
+	// the same document read record by record (stream target: the root's child elements): every
+	// record's tree must be the subtree the whole-document read has at that place
+	var wholeKids []string
+	for c := n.FirstChild; c != nil; c = c.NextSibling {
+		if c.Type == idr.ElementNode {
+			var kb strings.Builder
+			xmlTreeStr(c, &kb)
+			wholeKids = append(wholeKids, kb.String())
+		}
+	}
+	if len(wholeKids) > 0 {
+		sr2, err := idr.NewXMLStreamReader(strings.NewReader(cs.Doc), "/*/*")
+		if err != nil {
+			return "harness:reader", err.Error()
+		}
+		var streamKids []string
+		for i := 0; i <= len(wholeKids)+1; i++ {
+			rec, err := sr2.Read()
+			if err != nil {
+				if err != io.EOF {
+					streamKids = append(streamKids, "ERROR "+err.Error())
+				}
+				break
+			}
+			var kb strings.Builder
+			xmlTreeStr(rec, &kb)
+			streamKids = append(streamKids, kb.String())
+			sr2.Release(rec)
+		}
+		if strings.Join(streamKids, "\n") != strings.Join(wholeKids, "\n") {
+			return "xml:record-tree-differs-from-whole-document-tree", fmt.Sprintf("doc %s\n-- records read with stream target /*/*:\n%s\n-- the root's child elements in the tree of the whole document:\n%s",
+				cs.Doc, strings.Join(streamKids, "\n"), strings.Join(wholeKids, "\n"))
+		}
+	}
 	if got == want {
 		return "", ""
 	}
